@@ -1,9 +1,9 @@
 ENTRY = {
     "level": "proof",
-    "families": [fam("C12", 6000, 200000,
-                     opts={"quick": {"exh_n": 9, "exh_size": 6, "exh_nodes": 4}, "thorough": {"exh_n": 10, "exh_size": 7, "exh_nodes": 5}})],
+    "families": [fam("C12", 3000, 200000,
+                     opts={"quick": {"exh_n": 8, "exh_size": 6, "exh_nodes": 4}, "thorough": {"exh_n": 10, "exh_size": 7, "exh_nodes": 5}})],
     "gen_items": [],
-    "rule": "cases: (a) ENUMERATION of every multiset of <= 9 split sizes in 1..6 on 2..4 nodes (15015 instances; thorough: <= 10 sizes in 1..7 on 2..5 nodes) as "
+    "rule": "cases: (a) ENUMERATION of every multiset of <= 8 split sizes in 1..6 on 2..4 nodes (9009 instances; thorough: <= 10 sizes in 1..7 on 2..5 nodes) as "
             "synthetic SplitSets; (b) 75% random SplitSets (0..400 splits, nodes 0..64, size regimes: heavy ties incl. 0, boundary sizes 4MiB/64MiB+-1, up to 2^40, "
             "overflow candidates near 2^64; 1-2 tables, 1-4 file names incl. non-ASCII and empty, duplicate canonical keys, negative/zero row counts, shuffled order, "
             "total_bytes sometimes unrelated to the splits); (c) 25% random small instances (<= 10 splits, sizes up to 50, 1..5 nodes). "
@@ -31,7 +31,7 @@ ENTRY = {
                 "Tied to the code by exact differential correspondence of the whole Assignment.",
         "design_ref": "DESIGN.md §6 C12",
         "level_note": "Trusted: Lean kernel; axioms propext/Classical.choice/Quot.sound; the hand-written model of assign_lpt (validated by correspondence only); harness generators. "
-                      "Partial: 4/3 bound proved only for p_l <= OPT/3; the other half is enumeration (<= 9 splits, <= 4 nodes, sizes <= 6 in the quick tier).",
+                      "Partial: 4/3 bound proved only for p_l <= OPT/3; the other half is enumeration (<= 8 splits, <= 4 nodes, sizes <= 6 in the quick tier; <= 10 / 5 / 7 thorough).",
         "technique": "Lean 4 proof over executable model + differential correspondence with the Rust code + labelled exhaustive enumeration for the unproved half of the bound",
     },
 }
